@@ -14,6 +14,7 @@ import json
 import multiprocessing
 
 from ..framework import Check, Violation
+from ..xplore import HarnessError
 from ..xplore import h64
 from ..gen import certs as G
 
@@ -89,11 +90,17 @@ class C16(Check):
             "key, quote) chained below a valid certificate, each really signed by its parent; unknown and "
             "swapped element types, unknown and duplicate names, re-signed over- and "
             "under-long SGX messages, other key encodings; (d) rule-built chains, cycles, rho shapes, "
-            "stars of 12 elements. An execution is distinct by (part, load outcome or exception type, "
+            "stars of 12 elements; (e) certificates genuine by construction (every version-1 path x tweak "
+            "patterns x target lists, version-2 chains of depth 1..3 x auth data, each also with one "
+            "spoiled signature; every graph document of (b) whose elements are all signed by elements or "
+            "the root and whose targets reach the root) must load through HSMCertificate.from_jsonfile "
+            "and give the verdicts and values an independent reference computes. An execution is distinct by (part, load outcome or exception type, "
             "validation outcome classes, round-trip outcome).")
     assumptions = [
         "any exception raised by from_jsonfile counts as 'reports an error' (the tools catch Exception)",
-        "the statement does not say which documents must load; only what holds for those that do",
+        "the statement does not say which defective documents must be refused; documents genuine by "
+        "construction (really signed, finite paths, well-formed fields) must load through the entry "
+        "point the tools use, HSMCertificate.from_jsonfile, which is also what save/load goes through",
         "step budget: 4*10^4 executed lines of middleware code per call (load, to_dict, validate, "
         "save; the longest legitimate call on 12 elements executes about 7.8*10^3) with a 30 s "
         "wall-clock alarm behind it; the first exhausted budget ends its case, the sixth ends the run",
@@ -143,6 +150,8 @@ class C16(Check):
             for idx in range(4):
                 cs.append({"kind": "fields", "ver": ver, "idx": idx})
         cs.append({"kind": "special"})
+        cs.append({"kind": "genuine", "ver": 1})
+        cs.append({"kind": "genuine", "ver": 2})
         for first in range(len(KINDS)):
             cs.append({"kind": "kinds", "first": first})
         cs.append({"kind": "long", "ver": 1})
@@ -324,9 +333,12 @@ class C16(Check):
                     else:
                         signer = "stranger"
                     els.append(self.v2_el(i, names[i], kinds[i], sbs[i], signer))
+            # every element signed by an element or the root, names unique: genuine by construction
+            # whenever each target reaches the root
+            clean = (not rename) and len(set(names)) == n and all(j <= n for j in f)
             for ts in tsets:
                 d = {"version": ver, "targets": [names[i] for i in ts], "elements": els}
-                self.evaluate(json.dumps(d), label, stats, vs)
+                self.evaluate(json.dumps(d), label, stats, vs, must_load=clean and walk(d) is None)
 
     # ---- (c) field defects -----------------------------------------------------------------------
     def run_fields(self, case, stats, vs):
@@ -427,6 +439,62 @@ class C16(Check):
                     d = G.clone(b1)
                     d["elements"][i][fld] = spell(e[fld])
                     self.evaluate(json.dumps(d), "special:hex-spelling", stats, vs)
+
+    # ---- (e) genuine certificates load through the tools' entry point, with the reference's verdicts
+    def run_genuine(self, case, stats, vs):
+        from ..refs import certref as R
+        if case["ver"] == 1:
+            w = self.w1
+            ver = R.K1Verifier()
+            root = w.pub("root")
+            for k in range(1, 5):
+                for path in itertools.permutations(G.V1_NAMES, k):
+                    for mask in (0, (1 << k) - 1, 0b0101 & ((1 << k) - 1)):
+                        shape = [(nm, "root" if i == 0 else path[i - 1], bool(mask >> i & 1))
+                                 for i, nm in enumerate(path)]
+                        for targets in ([path[-1]], list(path), list(reversed(path))):
+                            d = w.doc(shape, targets)
+                            exp = R.v1_validate(d, root, ver)
+                            want = {t: (True, v[1], v[2]) if v[0] == R.OK else None for t, v in exp.items()}
+                            if None in want.values():
+                                raise HarnessError("genuine version-1 chain not valid for the reference")
+                            self.evaluate(json.dumps(d), "genuine:v1", stats, vs, must_load=True, expect=want)
+                            # one spoiled signature: loads all the same, reference names the failing element
+                            d2 = G.clone(d)
+                            e = d2["elements"][0]
+                            e["signature"] = G.flip(bytes.fromhex(e["signature"]), 20, 1).hex()
+                            exp = R.v1_validate(d2, root, ver)
+                            want = {t: ((True, v[1], v[2]) if v[0] == R.OK else (False, v[1]) if v[0] == R.FAIL
+                                        else None) for t, v in exp.items()}
+                            self.evaluate(json.dumps(d2), "genuine:v1:one-bad-signature", stats, vs,
+                                          must_load=True, expect=want)
+        else:
+            w = self.w2
+            rel = R.v2_root_element(self.root2)
+
+            def run(d, label):
+                exp = R.v2_validate(d, rel, G.T0)
+                want = {}
+                for t, v in exp.items():
+                    want[t] = (True, v[1], None) if v[0] == R.OK else (False, v[1]) if v[0] == R.FAIL else None
+                self.evaluate(json.dumps(d), label, stats, vs, must_load=True, expect=want)
+                return exp
+            for depth in (1, 2, 3):
+                for nest in ("wide-top", "narrow-top"):
+                    for auth in (None, b"", b"\x07", bytes(300)):
+                        d, _, _ = w.chain(depth, nest, auth=auth)
+                        exp = run(d, "genuine:v2")
+                        if exp["quote"][0] != R.OK:
+                            raise HarnessError("genuine version-2 chain not valid for the reference")
+                        for e in d["elements"]:
+                            d2 = G.clone(d)
+                            e2 = G.element_of(d2, e["name"])
+                            if e["type"] == "x509_pem":
+                                der = base64.b64decode(e["message"])
+                                e2["message"] = base64.b64encode(G.flip(der, len(der) - 9, 2)).decode()
+                            else:
+                                e2["signature"] = G.flip(bytes.fromhex(e["signature"]), 30, 1).hex()
+                            run(d2, "genuine:v2:one-bad-signature")
 
     # ---- (c') every kind under every kind, ancestors valid -----------------------------------
     def run_kinds(self, case, stats, vs):
@@ -543,7 +611,7 @@ class C16(Check):
                 return ("raise", e)
         return out
 
-    def evaluate(self, text, label, stats, vs):
+    def evaluate(self, text, label, stats, vs, must_load=False, expect=None):
         stats.evaluations += 1
         impl = self.impl
         out = impl.budgeted(lambda: impl.load_text(text))
@@ -555,6 +623,13 @@ class C16(Check):
         if out[0] == "raise":
             stats.observe((label, "load-error", type(out[1]).__name__))
             stats.sample({"label": label, "text": text[:300], "outcome": "error " + type(out[1]).__name__})
+            if must_load:
+                # genuine by construction: every element really signed, every target with a finite
+                # path to the root, every field well formed -> the tools' entry point must load it
+                ver = label.split(":")[1] if label.count(":") else "?"
+                self.viol(vs, "C16:genuine-refused:%s:%s" % (ver, type(out[1]).__name__), text, label,
+                          {"from_jsonfile": repr(out[1])}, {"from_jsonfile": "a certificate"},
+                          "a genuine certificate loads through HSMCertificate.from_jsonfile")
             return
         cert = out[1]
         td = impl.budgeted(cert.to_dict)
@@ -599,6 +674,12 @@ class C16(Check):
                 self.viol(vs, "C16:verdict-missing:" + "+".join(tkinds), text, label, {"result": res},
                           {"targets": d["targets"]}, "an entry per target")
             v1sig = ("ok", tuple(sorted((str(k), v[0]) for k, v in res.items()))) if isinstance(res, dict) else ("?",)
+            if expect is not None and isinstance(res, dict):
+                for t, want in expect.items():
+                    if want is not None and res.get(t) != want:
+                        self.viol(vs, "C16:genuine-verdict:%s:%s" % (label.split(":")[1], types.get(t)), text, label,
+                                  {"target": t, "result": res.get(t)}, {"target": t, "result": want},
+                                  "a genuine certificate gives the verdicts the reference computes")
         # save -> load -> validate
         sv = impl.budgeted(lambda: impl.save(cert))
         if sv[0] != "ok":
